@@ -182,3 +182,238 @@ Qed.
 
 Lemma geometric_add_zero_l a : Canon a -> aeq (geometric_add zero_angle a) a.
 Proof. intros C. rewrite geometric_add_comm. now apply geometric_add_zero_r. Qed.
+
+(* ================= subtraction ================= *)
+Lemma lift_blade_nonneg d : (d < 0)%Z -> (0 <= lift_blade d <= 3)%Z /\ (lift_blade d mod 4 = d mod 4)%Z.
+Proof.
+intros H. unfold lift_blade. destruct (Z.ltb_spec d 0); [|lia].
+assert (E : (((- d + 3) / 4) * 4 = - d + 3 - (- d + 3) mod 4)%Z).
+{ pose proof (Z_div_mod_eq_full (- d + 3) 4). lia. }
+pose proof (Z.mod_pos_bound (- d + 3) 4 ltac:(lia)).
+split. lia.
+rewrite Z.mod_add by lia. reflexivity.
+Qed.
+
+Lemma lift_blade_pos d : (0 <= d)%Z -> lift_blade d = d.
+Proof. intros H. unfold lift_blade. destruct (Z.ltb_spec d 0); lia. Qed.
+
+Lemma lift_blade_ge0 d : (0 <= lift_blade d)%Z.
+Proof. destruct (Z_lt_ge_dec d 0). now apply lift_blade_nonneg. rewrite lift_blade_pos; lia. Qed.
+
+Lemma fsub_self r : fin r -> fsub r r = zero.
+Proof.
+intros Fr. destruct r as [s|s| |s m e H]; try discriminate.
+- destruct s; reflexivity.
+- unfold fsub.
+  generalize (Bminus_correct prec emax _ _ mode_NE (B754_finite s m e H) (B754_finite s m e H) eq_refl eq_refl).
+  rewrite Rminus_diag_eq by reflexivity. rewrite round_0 by auto with typeclass_instances.
+  rewrite Rabs_R0, Rlt_bool_true by apply bpow_gt_0.
+  rewrite Rcompare_Eq by reflexivity.
+  intros (V & Fn & S).
+  destruct (Bminus mode_NE (B754_finite s m e H) (B754_finite s m e H)) as [s'|s'| |s' m' e' H'] eqn:E; try discriminate.
+  + simpl in S. rewrite S. destruct s; reflexivity.
+  + exfalso. destruct s'; simpl in V.
+    * assert (K := F2R_lt_0 radix2 (Float radix2 (Z.neg m') e') ltac:(simpl; lia)). lra.
+    * assert (K := F2R_gt_0 radix2 (Float radix2 (Z.pos m') e') ltac:(simpl; lia)). lra.
+Qed.
+
+Lemma geometric_sub_self a : fin (rem a) -> geometric_sub a a = {| rem := zero; blade := 0 |}.
+Proof.
+intros Fa. unfold geometric_sub. rewrite (fsub_self _ Fa), Z.sub_diag.
+replace (flt (fabs zero) eps15) with true by (vm_compute; reflexivity).
+reflexivity.
+Qed.
+
+(* difference of two canonical remainders *)
+Lemma diff_bounds ra rb : canonp ra -> canonp rb ->
+  let rd := fsub ra rb in
+  fin rd /\ R_ rd = rnd (R_ ra - R_ rb) /\ - R_ Q <= R_ rd <= R_ Q.
+Proof.
+intros (Fa&A0&A1) (Fb&B0&B1) rd. pose proof E10pos.
+destruct (fsub_R ra rb Fa Fb) as [V Fd].
+{ apply small_le_1000. apply Rabs_le. rewrite Qval, E10val in *. lra. }
+fold rd in V, Fd. split; auto. split; auto.
+rewrite V. split.
+- rewrite <- (round_generic radix2 fexp ZnearestE (- R_ Q)) by (apply generic_format_opp, fmt_R).
+  apply round_le; auto with typeclass_instances. lra.
+- rewrite <- (round_generic radix2 fexp ZnearestE (R_ Q)) by apply fmt_R.
+  apply round_le; auto with typeclass_instances. lra.
+Qed.
+
+Lemma Q_le_V0 : R_ Q <= R_ V0.
+Proof. destruct V0_ok as [_ [V1 _]]. rewrite Qval, E10val in *. lra. Qed.
+
+(* geometric_sub preserves the canonical invariant and never returns a negative blade *)
+Lemma geometric_sub_canon a b : canonp (rem a) -> canonp (rem b) ->
+  canonp (rem (geometric_sub a b)) /\ (0 <= blade (geometric_sub a b))%Z.
+Proof.
+intros Ca Cb. destruct (diff_bounds _ _ Ca Cb) as (Fd & V & [D0 D1]).
+pose proof Q_le_V0 as QV. pose proof Qpos as Qp.
+unfold geometric_sub. set (rd := fsub (rem a) (rem b)) in *.
+destruct (flt (fabs rd) eps15).
+{ cbn [rem blade]. split. apply canonp_zero. apply lift_blade_ge0. }
+rewrite flt_R by auto using fin_zero. rewrite R_zero.
+destruct (Rlt_bool_spec (R_ rd) 0) as [Neg|Pos].
+- destruct (fadd_R rd Q Fd fin_Q) as [VA FA].
+  { apply small_le_1000. apply Rabs_le. rewrite Qval in *. lra. }
+  assert (A0 : 0 <= R_ (fadd rd Q)) by (rewrite VA; apply rnd_ge0; lra).
+  assert (A1 : R_ (fadd rd Q) <= R_ V0).
+  { rewrite VA. apply Rle_trans with (R_ Q); [|exact QV].
+    rewrite <- (round_generic radix2 fexp ZnearestE (R_ Q)) at 2 by apply fmt_R.
+    apply round_le; auto with typeclass_instances. lra. }
+  destruct (normalize_range (fadd rd Q) (lift_blade (blade a - blade b - 1)) FA (conj A0 A1)) as (Cn & B).
+  split; [exact Cn|]. pose proof (lift_blade_ge0 (blade a - blade b - 1)).
+  destruct B as [(B&_)|[(B&_)|(B&_)]]; rewrite B; lia.
+- destruct (normalize_range rd (lift_blade (blade a - blade b)) Fd (conj Pos (Rle_trans _ _ _ D1 QV))) as (Cn & B).
+  split; [exact Cn|]. pose proof (lift_blade_ge0 (blade a - blade b)).
+  destruct B as [(B&_)|[(B&_)|(B&_)]]; rewrite B; lia.
+Qed.
+
+Lemma Canon_sub a b : Canon a -> Canon b -> Canon (geometric_sub a b).
+Proof. intros [Ca _] [Cb _]. destruct (geometric_sub_canon a b Ca Cb). split; auto. Qed.
+
+(* blade of the difference: the lifted blade difference (minus a borrow), plus at most one carry *)
+Lemma geometric_sub_blade a b : canonp (rem a) -> canonp (rem b) ->
+  exists borrow carry : Z, (0 <= borrow <= 1)%Z /\ (0 <= carry <= 1)%Z /\
+    blade (geometric_sub a b) = (lift_blade (blade a - blade b - borrow) + carry)%Z.
+Proof.
+intros Ca Cb. destruct (diff_bounds _ _ Ca Cb) as (Fd & V & [D0 D1]).
+pose proof Q_le_V0 as QV. pose proof Qpos as Qp.
+unfold geometric_sub. set (rd := fsub (rem a) (rem b)) in *.
+destruct (flt (fabs rd) eps15).
+{ exists 0%Z, 0%Z. cbn [rem blade]. rewrite Z.sub_0_r, Z.add_0_r. repeat split; lia. }
+rewrite flt_R by auto using fin_zero. rewrite R_zero.
+destruct (Rlt_bool_spec (R_ rd) 0) as [Neg|Pos].
+- destruct (fadd_R rd Q Fd fin_Q) as [VA FA].
+  { apply small_le_1000. apply Rabs_le. rewrite Qval in *. lra. }
+  assert (A0 : 0 <= R_ (fadd rd Q)) by (rewrite VA; apply rnd_ge0; lra).
+  assert (A1 : R_ (fadd rd Q) <= R_ V0).
+  { rewrite VA. apply Rle_trans with (R_ Q); [|exact QV].
+    rewrite <- (round_generic radix2 fexp ZnearestE (R_ Q)) at 2 by apply fmt_R.
+    apply round_le; auto with typeclass_instances. lra. }
+  destruct (normalize_range (fadd rd Q) (lift_blade (blade a - blade b - 1)) FA (conj A0 A1)) as (Cn & B).
+  destruct B as [(B&_)|[(B&_)|(B&_)]]; rewrite B.
+  + exists 1%Z, 0%Z. repeat split; lia.
+  + exists 1%Z, 1%Z. repeat split; lia.
+  + exists 1%Z, 1%Z. repeat split; lia.
+- destruct (normalize_range rd (lift_blade (blade a - blade b)) Fd (conj Pos (Rle_trans _ _ _ D1 QV))) as (Cn & B).
+  destruct B as [(B&_)|[(B&_)|(B&_)]]; rewrite B.
+  + exists 0%Z, 0%Z. rewrite Z.sub_0_r. repeat split; lia.
+  + exists 0%Z, 1%Z. rewrite Z.sub_0_r. repeat split; lia.
+  + exists 0%Z, 1%Z. rewrite Z.sub_0_r. repeat split; lia.
+Qed.
+
+(* total of the difference when no wrap-around is needed: off by at most 1e-10 + 3 roundings *)
+Lemma geometric_sub_total a b : canonp (rem a) -> canonp (rem b) -> (blade b + 1 <= blade a)%Z ->
+  Rabs (theta (geometric_sub a b) - (theta a - theta b)) <= R_ eps10 + 3 * / 4503599627370496.
+Proof.
+intros Ca Cb Hb. destruct (diff_bounds _ _ Ca Cb) as (Fd & V & [D0 D1]).
+pose proof Q_le_V0 as QV. pose proof Qpos as Qp. pose proof E10pos as E10p. pose proof E15pos as E15p.
+destruct Ca as (Fa&A0&A1). destruct Cb as (Fb&B0&B1).
+assert (Hd4 : Rabs (R_ (rem a) - R_ (rem b)) < 4). { apply Rabs_def1; rewrite Qval, E10val in *; lra. }
+assert (Er := rnd_err_4 _ Hd4). rewrite <- V in Er. apply Rabs_le_inv in Er.
+unfold theta, geometric_sub. set (rd := fsub (rem a) (rem b)) in *.
+rewrite flt_R by auto using fin_fabs, fin_eps15. rewrite fabs_R.
+destruct (Rlt_bool_spec (Rabs (R_ rd)) (R_ eps15)) as [N15|N15].
+{ cbn [rem blade]. rewrite lift_blade_pos by lia. rewrite minus_IZR, R_zero.
+  apply Rabs_def2 in N15. apply Rabs_le. rewrite E15val, E10val in *. lra. }
+rewrite flt_R by auto using fin_zero. rewrite R_zero.
+destruct (Rlt_bool_spec (R_ rd) 0) as [Neg|Pos].
+- destruct (fadd_R rd Q Fd fin_Q) as [VA FA].
+  { apply small_le_1000. apply Rabs_le. rewrite Qval in *. lra. }
+  assert (A40 : Rabs (R_ rd + R_ Q) < 4). { apply Rabs_def1; rewrite Qval in *; lra. }
+  assert (Ea := rnd_err_4 _ A40). rewrite <- VA in Ea. apply Rabs_le_inv in Ea.
+  assert (T0 : 0 <= R_ (fadd rd Q)) by (rewrite VA; apply rnd_ge0; lra).
+  assert (T1 : R_ (fadd rd Q) <= R_ V0).
+  { rewrite VA. apply Rle_trans with (R_ Q); [|exact QV].
+    rewrite <- (round_generic radix2 fexp ZnearestE (R_ Q)) at 2 by apply fmt_R.
+    apply round_le; auto with typeclass_instances. lra. }
+  rewrite lift_blade_pos by lia.
+  destruct (normalize_range (fadd rd Q) (blade a - blade b - 1) FA (conj T0 T1)) as (Cn & [(B&Rr&_)|[(B&Rr&Nr)|(B&Rr)]]);
+    rewrite B; rewrite ?plus_IZR, ?minus_IZR.
+  + rewrite Rr. apply Rabs_le. lra.
+  + rewrite Rr. apply Rabs_le_inv in Nr. apply Rabs_le. lra.
+  + apply Rabs_le. lra.
+- rewrite lift_blade_pos by lia.
+  destruct (normalize_range rd (blade a - blade b) Fd (conj Pos (Rle_trans _ _ _ D1 QV))) as (Cn & [(B&Rr&_)|[(B&Rr&Nr)|(B&Rr)]]);
+    rewrite B; rewrite ?plus_IZR, ?minus_IZR.
+  + rewrite Rr. apply Rabs_le. lra.
+  + rewrite Rr. apply Rabs_le_inv in Nr. apply Rabs_le. rewrite Qval in *. lra.
+  + apply Rabs_le. lra.
+Qed.
+
+(* ================= blade-step operators ================= *)
+Lemma new_0_1 : new zero one = {| rem := zero; blade := 0 |}. Proof. vm_compute; reflexivity. Qed.
+Lemma new_1_1 : new one one = {| rem := zero; blade := 2 |}. Proof. vm_compute; reflexivity. Qed.
+Lemma new_1_2 : new one two = {| rem := zero; blade := 1 |}. Proof. vm_compute; reflexivity. Qed.
+Lemma new_3_2 : new three two = {| rem := zero; blade := 3 |}. Proof. vm_compute; reflexivity. Qed.
+Lemma new_m1_2 : new (fneg one) two = {| rem := zero; blade := 3 |}. Proof. vm_compute; reflexivity. Qed.
+Lemma new_4_1 : new four one = {| rem := zero; blade := 8 |}. Proof. vm_compute; reflexivity. Qed.
+Lemma nwb_2_0_1 : new_with_blade 2 zero one = {| rem := zero; blade := 2 |}. Proof. vm_compute; reflexivity. Qed.
+
+(* adding a pure blade count k: the blade grows by exactly k, the remainder is untouched *)
+Lemma geometric_add_blade_k a k : canonp (rem a) ->
+  aeq (geometric_add a {| rem := zero; blade := k |}) {| rem := rem a; blade := blade a + k |}
+  /\ fin (rem (geometric_add a {| rem := zero; blade := k |})).
+Proof.
+intros (Fa&A0&A1). unfold geometric_add, aeq. cbn [rem blade].
+destruct (fadd_zero_r (rem a) Fa) as [V Ft]. set (tr := fadd (rem a) zero) in *.
+rewrite feq_R by auto using fin_zero. rewrite R_zero.
+destruct (Req_bool_spec (R_ tr) 0) as [Z|NZ].
+{ cbn [rem blade]. split; [split; [reflexivity|rewrite R_zero; lra]|reflexivity]. }
+rewrite (not_near15 tr Ft) by lra.
+unfold normalize_boundaries. cbn [rem blade]. fold (near10 tr).
+rewrite (below_not_near tr Ft) by lra.
+rewrite fge_R by auto using fin_Q.
+pose proof E10pos.
+rewrite Rle_bool_false by lra. cbn [rem blade]. split; [split; [reflexivity|exact V]|exact Ft].
+Qed.
+
+Lemma canonp_ext r r' : canonp r -> fin r' -> R_ r' = R_ r -> canonp r'.
+Proof. intros (F0&H) F' E. split; auto. now rewrite E. Qed.
+
+Definition steps_to (a a' : angle) (k : Z) : Prop :=
+  blade a' = (blade a + k)%Z /\ R_ (rem a') = R_ (rem a) /\ fin (rem a').
+
+Lemma step_by_k a k : canonp (rem a) -> steps_to a (geometric_add a {| rem := zero; blade := k |}) k.
+Proof. intros C. destruct (geometric_add_blade_k a k C) as [[B R] F]. repeat split; auto. Qed.
+
+Lemma dual_step a : canonp (rem a) -> steps_to a (dual a) 2.
+Proof. intros C. unfold dual, add_vv. rewrite nwb_2_0_1. now apply step_by_k. Qed.
+Lemma undual_step a : canonp (rem a) -> steps_to a (undual a) 2.
+Proof. exact (dual_step a). Qed.
+Lemma negate_step a : canonp (rem a) -> steps_to a (negate a) 2.
+Proof. intros C. unfold negate, add_vv. rewrite new_1_1. now apply step_by_k. Qed.
+Lemma conjugate_step a : canonp (rem a) -> steps_to a (conjugate a) 2.
+Proof. intros C. unfold conjugate, add_vv. rewrite new_1_1. now apply step_by_k. Qed.
+
+Lemma steps_canon a a' k : canonp (rem a) -> steps_to a a' k -> canonp (rem a').
+Proof. intros C (B&R&F). now apply (canonp_ext (rem a)). Qed.
+
+Lemma steps_trans a b c j k : steps_to a b j -> steps_to b c k -> steps_to a c (j + k).
+Proof. intros (B1&R1&F1) (B2&R2&F2). repeat split; auto. lia. congruence. Qed.
+
+(* base_angle / grade *)
+Lemma base_angle_spec a : blade (base_angle a) = (blade a mod 4)%Z /\ rem (base_angle a) = rem a.
+Proof. split; reflexivity. Qed.
+Lemma grade_range a : (0 <= grade a < 4)%Z.
+Proof. unfold grade. apply Z.mod_pos_bound. lia. Qed.
+
+Lemma steps_refl a : canonp (rem a) -> steps_to a a 0.
+Proof. intros (F&_). repeat split; auto. lia. Qed.
+
+Lemma steps_history_gen (ops : list (angle -> angle)) (ks : list Z) :
+  Forall2 (fun f k => forall x, canonp (rem x) -> steps_to x (f x) k) ops ks ->
+  forall a0 a k0, canonp (rem a0) -> steps_to a0 a k0 ->
+  steps_to a0 (fold_left (fun x f => f x) ops a) (fold_left Z.add ks k0).
+Proof.
+induction 1 as [|f k ops ks Hf Hrest IH]; intros a0 a k0 C0 S; simpl; [exact S|].
+apply IH; [exact C0|].
+eapply steps_trans; [exact S|]. apply Hf. eapply steps_canon; eauto.
+Qed.
+
+Lemma steps_history (ops : list (angle -> angle)) (ks : list Z) a :
+  Forall2 (fun f k => forall x, canonp (rem x) -> steps_to x (f x) k) ops ks ->
+  canonp (rem a) ->
+  steps_to a (fold_left (fun x f => f x) ops a) (fold_left Z.add ks 0%Z).
+Proof. intros H C. apply steps_history_gen; auto. now apply steps_refl. Qed.
